@@ -724,6 +724,24 @@ fn main() {
             };
             let n: u64 = args[3].parse().unwrap_or(64);
             let seed = verif_seed();
+            #[cfg(feature = "serde-roundtrip")]
+            if args[2] == "C20" {
+                let nm = C20_MACHINES.len() as u64;
+                let b: Batch<Art> = runner::run_batch("digest", n * nm, false, move |j, stats| {
+                    let m = C20_MACHINES[(j % nm) as usize];
+                    use ckpt::generate as ckpt_generate;
+                    let tr: Trace = dispatch_ckpt!(m, ckpt_generate, seed, j / nm);
+                    trace_job(tr, (j % nm) as u32, stats, false)
+                });
+                let mut shapes: Vec<u64> = b.shapes.iter().copied().collect();
+                shapes.sort_unstable();
+                let mut d = rng::Digest::new();
+                for s in &shapes {
+                    d.u64(*s);
+                }
+                println!("seed={} evaluations={} shapes={} digest={:016x} steps={} counters={:?} fired={:?} violations={:?}", seed, b.evaluations, shapes.len(), d.0, b.steps, b.stats.counters, b.fired, b.violations.keys().collect::<Vec<_>>());
+                return;
+            }
             let b = match prop {
                 "C08" => free_batch(prop, &C08_MACHINES, n, SizeClass::Small, seed, "digest"),
                 "C05" => fault_batch(prop, &C05_MACHINES, n, faulty::Mode::NonPositive, seed, "digest"),
